@@ -59,6 +59,51 @@ Theorem C35_accept_details : forall t maxd r ps ds chs,
                 nth_error ds k = Some (N.of_nat d) /\ depth_of t h d.
 Proof. exact accept_details. Qed.
 
+(* ---- extension: intents whose own validation can fail, reference totals (validate_intents_and_structure
+   around the structure check).  `validate_full`, `intent_ok`, `total_references` are in the model file. ---- *)
+(* accepted <-> well-formed tree /\ every intent's own validation passes (references within the per-intent
+   limit, no other error) /\ the saturating total of references is within max_total_references *)
+Theorem C35_full_accept_iff : forall f maxd,
+  root_not_placeholder (f_tree f) -> root_fresh (f_tree f) -> effective_max (f_tree f) = Some maxd ->
+  length (f_sub_vs f) = length (t_subs (f_tree f)) ->
+  (full_accepted f <->
+   WellFormed (f_tree f) maxd /\
+   Forall (intent_ok (f_max_references_per_intent f)) (f_root_v f :: f_sub_vs f) /\
+   total_references f <= f_max_total_references f).
+Proof. exact full_accept_iff. Qed.
+(* order of the verdicts: structure errors first, whatever the intents do; then the root intent; then the
+   first failing subintent in list order (with its index and hash); then the reference total *)
+Theorem C35_full_structure_first : forall f e,
+  relationships (f_tree f) = inl e -> validate_full f = FStructure e.
+Proof. exact full_structure_first. Qed.
+Theorem C35_full_first_failure : forall f rel,
+  relationships (f_tree f) = inr rel ->
+  (forall e, run_intent (f_max_references_per_intent f) 0 (f_root_v f) = inl e ->
+             validate_full f = FIntent FRoot e) /\
+  (forall t1 l e, run_intent (f_max_references_per_intent f) 0 (f_root_v f) = inr t1 ->
+             run_subs (f_max_references_per_intent f) 0 (hashes_of (f_tree f)) (f_sub_vs f) t1 = inl (l, e) ->
+             validate_full f = FIntent l e /\
+             exists k h v, nth_error (hashes_of (f_tree f)) k = Some h /\ nth_error (f_sub_vs f) k = Some v /\
+                           l = FNonRoot k h /\ Forall (intent_ok (f_max_references_per_intent f)) (firstn k (f_sub_vs f)) /\
+                           ~ intent_ok (f_max_references_per_intent f) v) /\
+  (Forall (intent_ok (f_max_references_per_intent f)) (f_root_v f :: f_sub_vs f) ->
+   length (f_sub_vs f) = length (t_subs (f_tree f)) ->
+   f_max_total_references f < total_references f ->
+   validate_full f = FIntent FAcross (TooManyReferences (total_references f) (f_max_total_references f))).
+Proof. exact full_first_failure. Qed.
+(* the total is usize::saturating_add of the counts = min(sum, usize::MAX) *)
+Theorem C35_total_references_saturating : forall f,
+  total_references f = N.min (fold_right N.add 0 (map v_refs (f_root_v f :: f_sub_vs f))) USIZE_MAX.
+Proof. exact total_references_saturating. Qed.
+(* when every intent passes and the total is within its limit the verdict is that of the base model,
+   so every theorem above about `validate` transfers *)
+Theorem C35_full_refines_structure : forall f,
+  Forall (intent_ok (f_max_references_per_intent f)) (f_root_v f :: f_sub_vs f) ->
+  length (f_sub_vs f) = length (t_subs (f_tree f)) ->
+  total_references f <= f_max_total_references f ->
+  validate_full f = FStructure (validate (f_tree f)).
+Proof. exact full_refines_structure. Qed.
+
 (* --- concrete instances --- *)
 Definition mk (h : N) (cs : list N) (py : N) (cy : list (N * N)) : sub :=
   Build_sub h (Build_intent cs (Build_summary py cy)).
@@ -120,7 +165,27 @@ Theorem C35_depth_underflow_panics :
   validate (Build_tree (ISub 9) (Build_intent [] (Build_summary 0 [])) [] 0) = Panic.
 Proof. vm_compute; reflexivity. Qed.
 
+Example C35_full_nonvacuous :
+  let ok := Build_iverdict 2 None in
+  (* saturation: usize::MAX + 5 references count as usize::MAX, which is within a limit of usize::MAX *)
+  validate_full (Build_full ex_tree (Build_iverdict USIZE_MAX None) [ok; ok; Build_iverdict 5 None; ok] USIZE_MAX USIZE_MAX)
+    = FStructure (validate ex_tree) /\
+  validate_full (Build_full ex_tree ok [ok; Build_iverdict 2 (Some 7); Build_iverdict 9 None; ok] 4 100)
+    = FIntent (FNonRoot 1 2) (IntentFailed 7) /\
+  validate_full (Build_full ex_tree ok [ok; ok; Build_iverdict 5 (Some 7); ok] 4 100)
+    = FIntent (FNonRoot 2 3) (TooManyReferences 5 4) /\
+  validate_full (Build_full ex_tree ok [ok; ok; ok; ok] 4 9)
+    = FIntent FAcross (TooManyReferences 10 9) /\
+  full_accepted (Build_full ex_tree ok [ok; ok; ok; ok] 4 10).
+Proof.
+  cbv zeta. split; [vm_compute; reflexivity|]. split; [vm_compute; reflexivity|].
+  split; [vm_compute; reflexivity|]. split; [vm_compute; reflexivity|].
+  unfold full_accepted. vm_compute. eauto 6.
+Qed.
+
 Print Assumptions C35_accept_iff_tree.
+Print Assumptions C35_full_accept_iff.
+Print Assumptions C35_full_first_failure.
 Print Assumptions C35_worklist_terminates.
 Print Assumptions C35_fuel_irrelevant.
 Print Assumptions C35_no_panic.
